@@ -29,7 +29,7 @@ def is_media_type(text):
 # Texts that are not media types and that MediaType::parseRaw accepts (open finding C18-nonmedia-accepted: the scanner takes any
 # byte up to '+', ';' or ' ' for a subtype, matches known subtypes and suffixes as prefixes, takes a blank for a parameter
 # separator and anything strtod reads for a quality).  Named input by input: another accepted non-media-type text is not covered.
-NOT_MEDIA_ACCEPTED = [b"text/plainx=y", b"text/plaincharset=utf-8", b"text/plain a=b", b"text/plain;;;;a=b", b"text/;a=b", b"text//plain",
+NOT_MEDIA_ACCEPTED = [b"text/plainx=y", b"text/plaincharset=utf-8", b"text/plain a=b", b"text/plain;;;;a=b", b"text//plain",
                       b"text/pl ain", b"text/(plain)", b"text/pl\x01in", b"text/plain; =b", b"text/plain; a=;b=c", b"text/plain; a b=c",
                       b"text/plain\r\nX-Evil: a=b", b"text/plain; q=0x1", b"text/plain; q=1e-1", b"text/plain; q= 0.5", b"text/plain; q=+0.5",
                       b"text/plain; q=0.5a=b", b"text/plain; q=.5", b"text/plain; q=0.5555", b"application/xhtml+xmlfoo=1", b"text/ "]
